@@ -449,6 +449,54 @@ impl std::io::Read for Growing {
         Ok(1)
     }
 }
+// ---- the ring buffer wraps ------------------------------------------------------------------------------------------------------------------------------
+// 10-byte stream: eight bytes are buffered (the VecDeque's first allocation for u8 holds 8), POS bits consumed, commit() drains the whole consumed bytes (the ring's
+// head moves), and the next read has to fetch bytes that land BEFORE the head physically: the buffer is no longer one contiguous slice. The
+// Verus unit reasons about the VecDeque's abstract sequence; this harness runs the compiled code over the wrapped ring.
+fn model6(all: &[u8; 10], pos: usize, n: usize) -> u64 {
+    let mut acc: u64 = 0;
+    let mut i = 0;
+    while i < n {
+        let p = pos + i;
+        acc = (acc << 1) | ((all[p / 8] >> (7 - (p % 8))) & 1) as u64;
+        i += 1;
+    }
+    acc
+}
+fn h_wrap<S: Src, const POS: usize, const N1: usize, const N2: usize>(s: &mut S) {
+    let all: [u8; 10] = s.arr();
+    let mut r = H263Reader::from_source(&all[8..10]);
+    let mut i = 0;
+    while i < 8 {
+        r.buffer.push_back(all[i]);
+        i += 1;
+    }
+    r.bits_read = POS;
+    r.commit();
+    match r.peek_bits::<u32>(N1 as u32) {
+        Ok(v) => chk!(s, v as u64 == model6(&all, POS, N1), "reader.wrap.peek: a peek across the physical wrap of the ring returns the stream's bits"),
+        Err(e) => {
+            chk!(s, false, "reader.wrap.peek: a peek across the physical wrap of the ring returns the stream's bits");
+            core::mem::forget(e);
+        }
+    }
+    match r.read_bits::<u32>(N1 as u32) {
+        Ok(v) => chk!(s, v as u64 == model6(&all, POS, N1), "reader.wrap.read: a read across the physical wrap of the ring returns the stream's bits"),
+        Err(e) => {
+            chk!(s, false, "reader.wrap.read: a read across the physical wrap of the ring returns the stream's bits");
+            core::mem::forget(e);
+        }
+    }
+    match r.read_bits::<u32>(N2 as u32) {
+        Ok(v) => chk!(s, v as u64 == model6(&all, POS + N1, N2), "reader.wrap.next: the bits after it follow in order"),
+        Err(e) => {
+            chk!(s, false, "reader.wrap.next: the bits after it follow in order");
+            core::mem::forget(e);
+        }
+    }
+    s.reach();
+}
+
 // the first read asks for N bits while only FIRST bytes have arrived: it fails without consuming; after the rest is appended the same read
 // returns what an undivided delivery returns
 fn h_append<S: Src, const FIRST: usize, const N: usize>(s: &mut S) {
